@@ -9,7 +9,8 @@
  Ids are natural numbers in issue order (the harness injects a counting KeyGenerator).
  ***************************************************************************)
 EXTENDS Integers, Sequences, FiniteSets, TLC, Json
-CONSTANTS Idle, Abs, Vals, HistDepth, MaxIds
+CONSTANTS Idle, Abs, Vals, HistDepth, MaxIds,
+          Ops, Modes      \* which operations / modes a configuration generates (focused configurations keep one session alive across its deadlines)
 Keys == {"k1", "k2"}
 NoData == [k \in Keys |-> ""]
 VARIABLES clock, store, next, req, hist,
@@ -22,7 +23,7 @@ NoReq == [active |-> FALSE, id |-> 0, data |-> NoData, abs |-> 0, fresh |-> FALS
 Live(i) == i \in 1..MaxIds /\ store[i].dl # 0 /\ store[i].dl > clock
 E(op, a, k, v) == [op |-> op, a |-> a, k |-> k, v |-> v, id |-> req.id, fresh |-> req.fresh, d1 |-> req.data["k1"], d2 |-> req.data["k2"], n |-> 0]
 
-Init == clock = 0 /\ store = [i \in 1..MaxIds |-> Absent] /\ next = 1 /\ req = NoReq /\ hist = <<>> /\ mode \in {"middleware", "store"}
+Init == clock = 0 /\ store = [i \in 1..MaxIds |-> Absent] /\ next = 1 /\ req = NoReq /\ hist = <<>> /\ mode \in Modes
 
 \* a request arrives presenting: 0 = nothing, i in 1..next-1 = an id the server issued at some point (live, stale or destroyed),
 \* -1 = a forged id the server never issued
@@ -40,10 +41,19 @@ Begin(p) ==
         /\ hist' = Append(hist, [op |-> "begin", a |-> p, k |-> "", v |-> "", id |-> r.id, fresh |-> r.fresh, d1 |-> r.data["k1"], d2 |-> r.data["k2"], n |-> 0])
   /\ UNCHANGED clock
 
-Set(k, v) == /\ req.active /\ ~req.destroyed /\ req' = [req EXCEPT !.data[k] = v]
+\* (a handler may go on writing to a session it has destroyed, e.g. a farewell notice after logout: nothing of it is kept)
+Set(k, v) == /\ req.active /\ req' = IF req.destroyed THEN req ELSE [req EXCEPT !.data[k] = v]
              /\ hist' = Append(hist, E("set", 0, k, v)) /\ UNCHANGED <<clock, store, next>>
-Del(k) == /\ req.active /\ ~req.destroyed /\ req' = [req EXCEPT !.data[k] = ""]
+Del(k) == /\ req.active /\ req' = IF req.destroyed THEN req ELSE [req EXCEPT !.data[k] = ""]
           /\ hist' = Append(hist, E("del", 0, k, "")) /\ UNCHANGED <<clock, store, next>>
+\* store mode: the handler (or a second middleware of the chain) asks the store again for the session of a request that presented
+\* a live id, and goes on with that object: it shows exactly what is saved under the id (unsaved changes of the first object are
+\* not in it) and nothing else changes -- in particular not the absolute deadline.  (What a second Get yields for a session that
+\* was created or rotated in this very request is not described by the statement and is not modelled.)
+ReGet == /\ mode = "store" /\ req.active /\ ~req.destroyed /\ ~req.fresh /\ Live(req.id)
+         /\ req' = [req EXCEPT !.data = store[req.id].data, !.abs = store[req.id].abs]
+         /\ hist' = Append(hist, [E("reget", 0, "", "") EXCEPT !.d1 = req'.data["k1"], !.d2 = req'.data["k2"]])
+         /\ UNCHANGED <<clock, store, next>>
 Destroy == /\ req.active /\ ~req.destroyed
            /\ store' = [store EXCEPT ![req.id] = Absent]
            /\ req' = [req EXCEPT !.destroyed = TRUE, !.data = NoData]
@@ -84,13 +94,17 @@ Tick(d) == /\ ~req.active /\ clock' = clock + d
            /\ hist' = Append(hist, [op |-> "tick", a |-> 0, k |-> "", v |-> "", id |-> 0, fresh |-> FALSE, d1 |-> "", d2 |-> "", n |-> d])
            /\ UNCHANGED <<store, next, req>>
 
+On(o) == o \in Ops
 Next == /\ UNCHANGED mode
-        /\ \/ \E p \in -1..(next - 1) : Begin(p)
-           \/ \E k \in Keys, v \in Vals : Set(k, v)
-           \/ \E k \in Keys : Del(k)
-           \/ Destroy \/ Regenerate \/ Reset \/ Save \/ End
-           \/ \E i \in 1..(next - 1) : GetByID(i) \/ StoreDelete(i)
-           \/ \E d \in {2, 4} : Tick(d)        \* even ticks, odd timeouts: no request lands exactly on a deadline
+        /\ \/ \E p \in -1..(next - 1) : On("begin") /\ (On("foreign") \/ p = next - 1 \/ (p = 0 /\ next = 1)) /\ Begin(p)
+           \/ \E k \in Keys, v \in Vals : On("set") /\ Set(k, v)
+           \/ \E k \in Keys : On("del") /\ Del(k)
+           \/ (On("destroy") /\ Destroy) \/ (On("regenerate") /\ Regenerate) \/ (On("reset") /\ Reset)
+           \/ (On("save") /\ Save) \/ End \/ (On("reget") /\ ReGet)
+           \/ \E i \in 1..(next - 1) : (On("getbyid") /\ GetByID(i)) \/ (On("storedelete") /\ StoreDelete(i))
+           \* even ticks, odd timeouts: no request lands exactly on a deadline.  Without "freeticks" time passes only in single
+           \* steps of 2 between requests, so that a session a client keeps using never idles out and meets its absolute deadline
+           \/ \E d \in {2, 4} : (On("freeticks") \/ (d = 2 /\ hist # <<>> /\ hist[Len(hist)].op = "end")) /\ Tick(d)
 Spec == Init /\ [][Next]_vars
 
 \* design-level properties
